@@ -73,7 +73,7 @@ func main() {
 		props string
 		fns   []string
 	}{
-		{"C08", []string{"clover..buildQueryPlan", "clover.skipLimitNode.Callback", "clover.sortNode.Finish", "clover.sortNode.Callback", "clover..compareDocuments",
+		{"C08", []string{"clover..buildQueryPlan", "clover.sortNode.Finish", "clover.sortNode.Callback", "clover..compareDocuments",
 			"query..normalizeSortOptions", "query.Query.Skip", "query.Query.Limit", "query.Query.Sort", "clover..execPlan", "clover.consumerNode.Callback"}},
 		{"C02", []string{"clover..tryToSelectIndex", "clover..getIndexQueries", "clover.iterNode.iterateIndex", "clover.iterNode.iterateFullCollection", "clover.iterNode.Run",
 			"clover.NotFlattenVisitor.VisitUnaryCriteria", "clover.NotFlattenVisitor.VisitBinaryCriteria", "clover.NotFlattenVisitor.VisitNotCriteria", "clover.NotFlattenVisitor.removeNotCriteria",
@@ -82,7 +82,7 @@ func main() {
 			"index.RangeIndexQuery.Run"}},
 		{"C09", []string{"clover.DB.countCollection", "clover.DB.Exists", "clover.DB.FindFirst", "clover.DB.Count", "clover.DB.FindAll", "clover.DB.IterateDocs", "clover.DB.ForEach",
 			"clover.DB.FindById", "clover..getDocumentById", "clover.DB.getCollectionSize"}},
-		{"C17", []string{"index.Range.IsEmpty", "index.Range.IsNil", "index.Range.Intersect", "index.rangeIndex.encodeRange", "index.rangeIndex.IterateRange", "index.rangeIndex.Iterate"}},
+		{"C17", []string{"index.rangeIndex.encodeRange", "index.rangeIndex.IterateRange", "index.rangeIndex.Iterate"}},
 		{"C16 C01", []string{"query.NotCriteria.Satisfy", "query.BinaryCriteria.Satisfy", "query.UnaryCriteria.Satisfy", "query..getFieldOrValue", "query.UnaryCriteria.compare",
 			"query.UnaryCriteria.exist", "query.UnaryCriteria.eq", "query.UnaryCriteria.in", "query.UnaryCriteria.contains", "query.UnaryCriteria.like", "query..IsField",
 			"query..and", "query..or", "query..not", "query..newCriteria", "query.field.Neq", "query.field.NotExists", "query.field.In", "query.field.Contains", "query.field.Eq", "query.field.Exists", "query.field.IsNil", "query.field.IsTrue", "query.field.IsFalse", "query.field.IsNilOrNotExists", "query.field.Gt", "query.field.GtEq", "query.field.Lt", "query.field.LtEq", "query.field.Like", "query..Field", "query.NotCriteria.Not", "query.NotCriteria.And", "query.NotCriteria.Or", "query.BinaryCriteria.Not", "query.BinaryCriteria.And", "query.BinaryCriteria.Or", "query.UnaryCriteria.Not", "query.UnaryCriteria.And", "query.UnaryCriteria.Or", "query.Query.Where", "query.Query.MatchFunc", "query..NewQuery", "query.Query.copy",
@@ -99,7 +99,7 @@ func main() {
 			"clover.DB.ListCollections", "clover.DB.saveCollectionMetadata", "clover.DB.getCollectionMeta", "clover..iteratePrefix", "clover.DB.CreateCollectionByQuery", "clover.DB.createCollectionWith"}},
 		{"C14", []string{"clover.DB.CreateIndex", "clover.DB.createIndex", "clover.DB.HasIndex", "clover.DB.hasIndex", "clover.DB.DropIndex", "clover.DB.ListIndexes", "clover.DB.listIndexes",
 			"clover.DB.getIndexes", "index.rangeIndex.Drop", "index.rangeIndex.Add"}},
-		{"C10", []string{"internal..TypeId", "internal..compareTypes", "internal..compareSlices", "internal..compareNumbers", "internal..toUint64", "internal..compareInt64", "internal..compareUint64",
+		{"C10", []string{"internal..TypeId", "internal..compareTypes", "internal..compareSlices", "internal..compareNumbers", "internal..toUint64", 
 			"internal..Compare", "internal..compareObjects", "internal..getEncodeValue", "internal..orderedCodePrimitive", "internal..OrderedCode", "internal..orderedCode", "internal..orderedCodeSlice",
 			"internal..orderedCodeObject", "index.rangeIndex.getKey", "index.rangeIndex.getKeyPrefixForType", "index.rangeIndex.getKeyPrefix", "index.rangeIndex.encodeValueAndId"}},
 		{"C11", []string{"internal..Encode", "internal..Decode", "internal..replaceTimes", "internal..removeLocalizedTimes", "internal.LocalizedTime.MarshalMsgpack", "internal.LocalizedTime.UnmarshalMsgpack",
@@ -113,7 +113,7 @@ func main() {
 			"clover..Open", "clover..OpenWithStore", "clover.DB.Close"}},
 		// the small helpers the functions above lean on (accessors, constructors, conversions): pinned with the property
 		// whose model inlines them, so that no function of the packages read is outside every model
-		{"C10", []string{"internal..asSlice", "internal..TypeName", "util..IsNumber", "util..ToFloat64", "util..ToInt64", "util..BoolToInt"}},
+		{"C10", []string{"internal..asSlice", "internal..TypeName", "util..IsNumber", "util..ToFloat64", "util..ToInt64"}},
 		{"C18", []string{"internal..renameValue"}},
 		{"C11", []string{"internal..init"}},
 		{"C08", []string{"clover.planNodeBase.CallNext", "clover.planNodeBase.Callback", "clover.planNodeBase.Finish", "clover.planNodeBase.NextNode", "clover.planNodeBase.SetNext",
@@ -134,7 +134,15 @@ func main() {
 			"badger.badgerTx.Set", "badger..getItemValue", "badger.badgerTx.Get", "badger.badgerTx.Commit", "badger.badgerTx.Rollback", "badger.badgerTx.Cursor", "badger.badgerStore.Begin",
 			"badger.badgerCursor.Seek", "badger.badgerCursor.Next", "badger.badgerCursor.Valid", "badger.badgerCursor.Item", "badger.badgerCursor.Close"}},
 	}
+	// functions TRANSLATED statement by statement (cmd/translate -> Generated/Translated.lean) and proved equal to the model's
+	// definitions (Proofs/Translated.lean): their tie is semantic, so their text is not pinned - a rewrite that computes the
+	// same passes, one that does not breaks the proof
+	translated := []string{"index.Range.IsEmpty", "index.Range.IsNil", "index.Range.Intersect", "internal..compareInt64", "internal..compareUint64",
+		"util..BoolToInt", "clover.skipLimitNode.Callback"}
 	wanted := map[string]bool{}
+	for _, f := range translated {
+		wanted[f] = true
+	}
 	for _, g := range groups {
 		for _, f := range g.fns {
 			wanted[f] = true
@@ -146,6 +154,7 @@ func main() {
 		}
 	}
 	seenLogic := map[string]bool{}
+	fnExists := map[string]bool{}
 	logic := map[string][]string{}
 	layout := []string{} // "pkg.func: <statements of the body>" for the functions that define the key layout and the type ranks
 	layoutFns := map[string]bool{"getCollectionKeyPrefix": true, "getCollectionKey": true, "getDocumentKeyPrefix": true, "getDocumentKey": true,
@@ -213,6 +222,7 @@ func main() {
 							}
 						}
 						key := pn + "." + f.recv + "." + f.name
+						fnExists[key] = true
 						fns[key] = f
 						order = append(order, key)
 						if dcl.Body == nil {
@@ -421,9 +431,11 @@ func main() {
 		sort.Strings(logic[prop])
 		strList("logic"+prop, "the source text behind "+prop+": full text of the functions its model was transcribed from (comments and layout removed)", logic[prop])
 	}
+	sort.Strings(translated)
+	strList("logicTranslated", "functions whose tie to the model is a translation plus a proof of equality (not a pinned text)", translated)
 	missing := []string{}
 	for f := range wanted {
-		if !seenLogic[f] {
+		if !seenLogic[f] && !fnExists[f] {
 			missing = append(missing, f)
 		}
 	}
